@@ -3,6 +3,7 @@ package props
 import (
 	"bytes"
 	"fmt"
+	"reflect"
 
 	"github.com/pion/rtcp"
 
@@ -44,6 +45,27 @@ func xrKind(b rtcp.ReportBlock) (bt int, name string) {
 		return int(x.XRHeader.BlockType), "Unknown"
 	}
 	return -1, "?"
+}
+
+// nextSameKind returns the next alphabet element (cyclically) whose block has the same Go type.
+func nextSameKind(alpha []ref.XRBlock, i int) int {
+	want := fmt.Sprintf("%T", alpha[i].Make(ref.NewTagger()))
+	for d := 1; d <= len(alpha); d++ {
+		j := (i + d) % len(alpha)
+		if fmt.Sprintf("%T", alpha[j].Make(ref.NewTagger())) == want {
+			return j
+		}
+	}
+	return i
+}
+
+// copyXRHeader copies the (derived) XRHeader of src into dst.
+func copyXRHeader(dst, src rtcp.ReportBlock) {
+	d := reflect.ValueOf(dst).Elem().FieldByName("XRHeader")
+	s := reflect.ValueOf(src).Elem().FieldByName("XRHeader")
+	if d.IsValid() && s.IsValid() && d.CanSet() {
+		d.Set(s)
+	}
 }
 
 func runC15(c *bx.Ctx) {
@@ -177,6 +199,29 @@ func runC15(c *bx.Ctx) {
 				c.Report(keyJoin("C15", entry, "remarshal"), "re-encoding the decoded report does not reproduce the bytes", rp("Marshal+"+entry+"+Marshal", bx.Short(b), fmt.Sprint(bx.Short(b2), err, pan)))
 				return
 			}
+		}
+		// reuse: blocks of the same kinds but other values / flags / list lengths that carry the
+		// header state left behind by the Marshal above must encode exactly like fresh ones
+		t2 := ref.NewTagger()
+		for k := 0; k < 7; k++ {
+			t2.Skip()
+		}
+		p2 := &rtcp.ExtendedReport{SenderSSRC: 0x0badcafe}
+		for pos, i := range idx {
+			j := nextSameKind(alpha, i)
+			nb := alpha[j].Make(t2)
+			if _, unk := nb.(*rtcp.UnknownReportBlock); !unk {
+				copyXRHeader(nb, p.Reports[pos])
+			}
+			p2.Reports = append(p2.Reports, nb)
+		}
+		clean := ref.Clone(p2).(*rtcp.ExtendedReport)
+		w2, rerr := ref.Encode(clean, ref.Opt{})
+		b3, err, pan := safeMarshal(p2)
+		c.T(1)
+		if rerr == nil && (pan != "" || err != nil || !bytes.Equal(b3, w2.B)) {
+			c.Report("C15/stale-header-state", "blocks that carry header fields left by an earlier Marshal encode differently from fresh blocks", rp("Marshal after reuse", bx.Short(w2.B), fmt.Sprint(bx.Short(b3), err, pan)))
+			return
 		}
 		if len(idx) >= 2 {
 			c.NT()
